@@ -151,6 +151,8 @@ class TimerSpec:
         self.expect = {}    # hid -> dict(kind='ok'|'abort'|'either', t=..., timer=..)
         self.posted = []    # (hid, time posted)
         self.overwritten = set()
+        self.cancelled = {}  # timer -> expiry it still has after cancel() disarmed it
+        self.findings = []   # deviations that are listed as known findings: (sig, msg)
 
     def fired_for_sure(self, i, now):
         if i not in self.exp:
@@ -195,6 +197,10 @@ class TimerSpec:
         else:
             if n != 0:
                 raise Fail("timer/cancel-return", "%s on timer %d with nothing pending returned %d, expected 0" % (what, i, n))
+        if i in self.exp and what == "cancel" and self.exp[i][0] > now:
+            self.cancelled[i] = self.exp[i][0]
+        else:
+            self.cancelled.pop(i, None)
         self.exp.pop(i, None)
 
 
@@ -255,6 +261,7 @@ def replay(lines, trace):
                     spec.exp[i] = (now + int(o[2]), now)
             elif c == "destroy":
                 i = int(o[1])
+                spec.cancelled.pop(i, None)
                 spec.settle(i, now)
                 if i in spec.exp and i in spec.wait:
                     h, ts = spec.wait.pop(i)
@@ -277,6 +284,11 @@ def replay(lines, trace):
                     spec.wait[i] = (h, now)
                 else:
                     spec.wait.pop(i, None)
+                    if spec.cancelled.get(i, now) > now:
+                        # asio: the expiry survives cancel(), the wait completes at the expiry.
+                        # libsimulator completes it at once (known finding); carry on with what it does.
+                        spec.findings.append(("timer/wait-after-cancel-early",
+                            "wait %d started at %d on timer %d after cancel(): expiry %d is still ahead, the contract says it completes then" % (h, now, i, spec.cancelled[i])))
                     spec.expect[h] = {"kind": "ok", "t": now, "timer": i}
             elif c == "stop":
                 pass
@@ -366,11 +378,12 @@ def replay(lines, trace):
 
 
 def oracle_common(lines, trace):
+    """-> (list of (sig, msg) failures, (stats, spec) or None)"""
     try:
         stats, spec = replay(lines, trace)
     except Fail as f:
-        return (f.sig, f.msg), None
-    return None, (stats, spec)
+        return [(f.sig, f.msg)], None
+    return list(spec.findings), (stats, spec)
 
 
 def classify(lines, trace):
